@@ -113,3 +113,51 @@ func ZZVerifC03FrameRoundTrip() {
 	}
 	rt.Reach("end")
 }
+
+// ZZVerifC03RoundTripLarge: commands larger than the reader's buffer (4096 bytes). Two short arguments with
+// arbitrary bytes, one large argument (concrete pattern, length around and above the buffer size) placed
+// before, between or after them, read back through the same buffered reader replay uses: name and every
+// argument are preserved.
+func ZZVerifC03RoundTripLarge() {
+	a0 := []byte(rt.String("short0", 2))
+	a1 := []byte(rt.String("short1", 1))
+	n := []int{4000, 4096, 6000, 9000}[rt.IntRange("bigLen", 0, 3)]
+	big := make([]byte, n)
+	for i := range big {
+		big[i] = byte('A' + i%23)
+	}
+	var args [][]byte
+	switch rt.IntRange("bigAt", 0, 2) {
+	case 0:
+		args = [][]byte{big, a0, a1}
+	case 1:
+		args = [][]byte{a0, big, a1}
+	case 2:
+		args = [][]byte{a0, a1, big}
+	}
+	s := FormatCommand("VADD", args...)
+	cmd, err := ParseCommand(bufio.NewReader(bytes.NewReader([]byte(s))))
+	rt.Assert(err == nil, "large round trip: ParseCommand accepts FormatCommand output")
+	if err != nil {
+		return
+	}
+	rt.Assert(cmd.Name == "VADD", "large round trip: command name preserved")
+	rt.Assert(len(cmd.Args) == 3, "large round trip: argument count preserved")
+	if len(cmd.Args) != 3 {
+		return
+	}
+	for i := range args {
+		rt.Assert(len(cmd.Args[i]) == len(args[i]), "large round trip: argument length preserved")
+		if len(cmd.Args[i]) != len(args[i]) {
+			continue
+		}
+		if len(args[i]) <= 2 {
+			for j := range args[i] {
+				rt.Assert(cmd.Args[i][j] == args[i][j], "large round trip: short argument bytes preserved")
+			}
+		} else {
+			rt.Assert(bytes.Equal(cmd.Args[i], args[i]), "large round trip: large argument bytes preserved")
+		}
+	}
+	rt.Reach("end")
+}
